@@ -24,6 +24,7 @@
 -/
 import Gedcom.Model.Types
 import Gedcom.Model.Node
+import Gedcom.Model.Decoder
 import Gedcom.Generated.CacheFlags
 namespace Gedcom.Cache
 open Gedcom
@@ -126,6 +127,9 @@ def tDEAT : Str := [68, 69, 65, 84]
 def tBAPM : Str := [66, 65, 80, 77]
 def tBURI : Str := [66, 85, 82, 73]
 def tSEX : Str := [83, 69, 88]
+def tBAPL : Str := [66, 65, 80, 76]
+def tMARR : Str := [77, 65, 82, 82]
+def tDATE : Str := [68, 65, 84, 69]
 
 structure NodeRec where
   tag : Str
@@ -584,6 +588,80 @@ def warningsCopying (fl : Flags) (s : St) : St :=
   let s := fams.foldl (fun s f => addFamily fl (a.ptr f) s) s
   if fams.isEmpty && a.roots.all (fun r => (a.kids r).isEmpty) then s else resetNodeCache s
 
+/-- a freshly decoded document: roots, pointer index built once, every cache empty -/
+def initOf (heap : List NodeRec) (roots : List Id) : St :=
+  { heap := heap, roots := roots, ptrIdx := buildIdx ⟨heap, roots⟩, dfams := none, known := [],
+    ncache := [], cHusb := [], cWife := [], cFams := [], cSpouses := [] }
+
+/-! ## between node trees and the heap -/
+
+mutual
+/-- preorder allocation of a decoded tree; `fam` = most recent FAM record seen (the decoder's
+    `family` cursor) -/
+def allocNode : Node → List NodeRec × Id → (List NodeRec × Id) × Id
+  | .mk t v p ks, (heap, fam) =>
+    let id := heap.length
+    let fam := if t == tFAM then id else fam
+    let r := allocForest ks (heap ++ [⟨t, v, p, [], fam⟩], fam)
+    ((setKids r.1.1 id r.2, r.1.2), id)
+def allocForest : List Node → List NodeRec × Id → (List NodeRec × Id) × List Id
+  | [], st => (st, [])
+  | n :: ns, st =>
+    let r1 := allocNode n st
+    let r2 := allocForest ns r1.1
+    (r2.1, r1.2 :: r2.2)
+end
+
+/-- the state right after decoding: what `NewDocumentFromString` builds from a forest -/
+def ofForest (f : Forest) : St :=
+  let r := allocForest f ([], 0)
+  initOf r.1.1 r.2
+
+/-- the tree below node `n` (cut at depth `fuel`; `heap.length` suffices for a tree-shaped heap) -/
+def toNode (a : Abs) : Nat → Id → Node
+  | 0, n => .mk (a.tag n) (a.value n) (a.ptr n) []
+  | fuel + 1, n => .mk (a.tag n) (a.value n) (a.ptr n) ((a.kids n).map (toNode a fuel))
+
+/-- the forest `Document.String()` writes out -/
+def toForest (a : Abs) : Forest := a.roots.map (toNode a a.heap.length)
+
+/-! ## `Document.Warnings()` as a read (after 424e2bc it only walks the nodes)
+
+  The walk visits every record; an individual's warnings look at its BIRT/BAPM/BAPL/DEAT/BURI events
+  and their DATE children and at its SEX nodes, a family's warnings at husband, wife and children,
+  the individuals they refer to, those individuals' births, and the MARR events — all through the
+  cached getters, so the read fills caches.  (The order in which the real code touches them is not
+  reproduced exactly; what matters here is *which* caches a pure read may fill.) -/
+
+def eventDates (n : Id) (t : Str) : M Unit :=
+  M.bind (nwt n t) fun es => M.bind (M.mapM' (fun e => nwt e tDATE) es) fun _ => M.pure ()
+
+def birthOf (i : Option Id) : M Unit :=
+  match i with
+  | some i => eventDates i tBIRT
+  | none => M.pure ()
+
+def indiWarnReads (i : Id) : M Unit :=
+  M.bind (eventDates i tBIRT) fun _ => M.bind (eventDates i tBAPM) fun _ =>
+  M.bind (eventDates i tBAPL) fun _ => M.bind (eventDates i tDEAT) fun _ =>
+  M.bind (eventDates i tBURI) fun _ => M.bind (nwt i tSEX) fun _ => M.pure ()
+
+def spouseBirth (isHusb : Bool) (f : Id) : M Unit :=
+  M.bind (spouseIndividual isHusb f) birthOf
+
+def famWarnReads (f : Id) : M Unit :=
+  M.bind (spouseBirth true f) fun _ => M.bind (spouseBirth false f) fun _ =>
+  M.bind (famChildren f) fun cs =>
+  M.bind (M.mapM' (fun c => M.bind (individualOf c) birthOf) cs) fun _ =>
+  M.bind (eventDates f tMARR) fun _ => M.pure ()
+
+def rootWarnReads (r : Id) : M Unit :=
+  M.bind (M.ofAbs fun a => a.tag r) fun t =>
+  if t == tINDI then indiWarnReads r else if t == tFAM then famWarnReads r else M.pure ()
+
+def warningsRead : M Unit :=
+  M.bind (M.ofAbs fun a => a.roots) fun rs => M.bind (M.mapM' rootWarnReads rs) fun _ => M.pure ()
+
 /-! ## operations -/
 
 inductive View
@@ -622,6 +700,10 @@ inductive Op
   | read (v : View)
   /-- `doc.Warnings()` -/
   | warnings
+  /-- `doc.String()`: the encoder walks the nodes, no cache is involved -/
+  | string
+  /-- `n.GEDCOMString(0)` -/
+  | gedcomString (n : Id)
   /-- a read whose implementation builds nodes elsewhere (DeepCopy, Filter, Compare, CompareNodes,
       decoding another document): the process-global node cache is reset, nothing else -/
   | foreign
@@ -633,10 +715,12 @@ inductive Obs
   | none
   | bad
   | ids (l : List (Option Id))
+  /-- GEDCOM text -/
+  | text (bytes : Str)
 deriving Repr, BEq, DecidableEq
 
 def Op.isRead : Op → Bool
-  | .read _ | .warnings | .foreign | .inert => true
+  | .read _ | .warnings | .string | .gedcomString _ | .foreign | .inert => true
   | _ => false
 
 def plainTag (t : Str) : Bool :=
@@ -701,7 +785,8 @@ def Op.ok (a : Abs) : Op → Bool
   | .setHusbandPointer f _ | .setWifePointer f _ => isFam a f
   | .addChild f i => isFam a f && isIndi a i
   | .read v => v.ok a
-  | .warnings | .foreign | .inert => true
+  | .warnings | .string | .foreign | .inert => true
+  | .gedcomString n => n < a.heap.length
 
 /-- `SetHusband(x)` / `SetWife(x)` with a possibly nil argument -/
 def setOrClear (fl : Flags) (isHusb : Bool) (f : Id) (i : Option Id) (s : St) : St :=
@@ -725,7 +810,9 @@ def exec (fl : Flags) (s : St) : Op → St × Obs
   | .setWifePointer f p => (setSpousePointer fl false f p s, .none)
   | .addChild f i => (addChild fl f i s, .none)
   | .read v => let r := runView v s; (r.2, r.1)
-  | .warnings => (if fl.warningsReadOnly then s else warningsCopying fl s, .none)
+  | .warnings => (if fl.warningsReadOnly then (warningsRead s).2 else warningsCopying fl s, .none)
+  | .string => (s, .text (Dec.encForest 0 (toForest (abs s))))
+  | .gedcomString n => (s, .text (Dec.encNode 0 (toNode (abs s) s.heap.length n)))
   | .foreign => (resetNodeCache s, .none)
   | .inert => (s, .none)
 
@@ -739,43 +826,6 @@ def run (fl : Flags) (s : St) : List Op → St × List Obs
     let r := step fl s o
     let rs := run fl r.1 os
     (rs.1, r.2 :: rs.2)
-
-/-- a freshly decoded document: roots, pointer index built once, every cache empty -/
-def initOf (heap : List NodeRec) (roots : List Id) : St :=
-  { heap := heap, roots := roots, ptrIdx := buildIdx ⟨heap, roots⟩, dfams := none, known := [],
-    ncache := [], cHusb := [], cWife := [], cFams := [], cSpouses := [] }
-
-/-! ## between node trees and the heap -/
-
-mutual
-/-- preorder allocation of a decoded tree; `fam` = most recent FAM record seen (the decoder's
-    `family` cursor) -/
-def allocNode : Node → List NodeRec × Id → (List NodeRec × Id) × Id
-  | .mk t v p ks, (heap, fam) =>
-    let id := heap.length
-    let fam := if t == tFAM then id else fam
-    let r := allocForest ks (heap ++ [⟨t, v, p, [], fam⟩], fam)
-    ((setKids r.1.1 id r.2, r.1.2), id)
-def allocForest : List Node → List NodeRec × Id → (List NodeRec × Id) × List Id
-  | [], st => (st, [])
-  | n :: ns, st =>
-    let r1 := allocNode n st
-    let r2 := allocForest ns r1.1
-    (r2.1, r1.2 :: r2.2)
-end
-
-/-- the state right after decoding: what `NewDocumentFromString` builds from a forest -/
-def ofForest (f : Forest) : St :=
-  let r := allocForest f ([], 0)
-  initOf r.1.1 r.2
-
-/-- the tree below node `n` (cut at depth `fuel`; `heap.length` suffices for a tree-shaped heap) -/
-def toNode (a : Abs) : Nat → Id → Node
-  | 0, n => .mk (a.tag n) (a.value n) (a.ptr n) []
-  | fuel + 1, n => .mk (a.tag n) (a.value n) (a.ptr n) ((a.kids n).map (toNode a fuel))
-
-/-- the forest `Document.String()` writes out -/
-def toForest (a : Abs) : Forest := a.roots.map (toNode a a.heap.length)
 
 /-- renaming of the nodes a view mentions -/
 def View.map (φ : Id → Id) : View → View
@@ -795,6 +845,7 @@ def Obs.map (φ : Id → Id) : Obs → Obs
   | .none => .none
   | .bad => .bad
   | .ids l => .ids (l.map (Option.map φ))
+  | .text b => .text b
 
 /-- the node a view is asked of -/
 def View.subject : View → Option Id
